@@ -260,6 +260,15 @@ Proof.
   cbn. eapply relcore_told_cc; eauto. apply (r_credit _ _ _ R).
 Qed.
 
+Lemma A_close_bad sent s s' m : Inv sent s -> RelCore sent s m ->
+  step true LCloseBad s = Some s' ->
+  snd (after_res sent LCloseBad s s' m) = [] /\ RelCore sent s' (fst (after_res sent LCloseBad s s' m)).
+Proof.
+  intros H R Hs. cbn in Hs. destruct (ctl s) eqn:Ec; [|discriminate]. injection Hs as <-.
+  unfold after_res, news. cbn. rewrite skipn_len_app. cbn. split; [reflexivity|].
+  destruct R. constructor; cbn; auto.
+Qed.
+
 Lemma A_all sent l s s' m : Inv sent s -> Rel sent s m -> step true l s = Some s' ->
   snd (after_res sent l s s' m) = [] /\ RelCore sent s' (fst (after_res sent l s s' m)).
 Proof.
@@ -272,6 +281,7 @@ Proof.
   - injection Hs as <-. apply A_send; auto.
   - apply A_close_call; auto.
   - apply A_close_run; auto.
+  - apply A_close_bad; auto.
 Qed.
 
 (* mon_res never touches m_pdisc, m_cc *)
@@ -408,6 +418,7 @@ Proof.
     + destruct (Rp Hpd) as [X|[c Hc]]; [left; assumption | right; exists c; eapply pump_keeps_have; eauto; discriminate].
     + destruct (Rp Hpd) as [X|[c Hc]]; [left; assumption | right; exists c; eapply pump_keeps_have; eauto; discriminate].
     + left; reflexivity.
+    + destruct (Rp Hpd) as [X|[c Hc]]; [left; assumption | right; exists c; eapply pump_keeps_have; eauto; discriminate].
     + destruct (Rp Hpd) as [X|[c Hc]]; [left; assumption | right; exists c; eapply pump_keeps_have; eauto; discriminate].
 Qed.
 
